@@ -364,6 +364,14 @@ func (m *M) stepSafe() {
 				st.BlockedNow = &e
 				st.NeedSchedule = true
 			case goPark:
+				if m.ex.Cfg.GoMode == "pump" {
+					// the goroutine blocks on a channel operation: keep its frames; vpump resumes it (re-executing the
+					// blocked instruction) once the operation can proceed
+					st.rollback()
+					st.logging = false
+					m.parkGoroutine()
+					return
+				}
 				// a goroutine run inline blocks forever: discard its frames and continue the spawner
 				for len(st.Frames) > 0 {
 					top := st.top()
@@ -988,6 +996,13 @@ func (m *M) execInstr(f *Frame, instr ssa.Instruction) {
 		switch mode {
 		case "skip":
 			m.ex.noteAssumption("go statements are not executed (goroutine bodies outside the claim): " + fnName(fn))
+		case "pump":
+			m.ex.noteAssumption("go statements run at the spawn point until they block on a channel operation; blocked goroutines are resumed, round-robin and run-to-block, at the harness's vpump points (timers and tickers fire only there, at most the stated number of times): " + fnName(fn))
+			nf := len(st.Frames)
+			m.callValue(fn, args, nil, false)
+			if len(st.Frames) > nf {
+				st.top().IsGoRoot = true
+			}
 		case "inline":
 			m.ex.noteAssumption("go statements run inline at the spawn point, to completion or until they block on a select with no ready case (then the goroutine is parked for good): " + fnName(fn))
 			nf := len(st.Frames)
